@@ -421,9 +421,190 @@ fn run(ctx: &RunCtx) {
         st.sample(|| json!({"source": source}));
         CaseResult::Pass { nontrivial }
     });
+    // bundling: every file's surviving markers move by one amount per file
+    let nb = ctx.tier.pick(3_000, 60_000);
+    ctx.search("bundles", nb, 900, |tape, st| {
+        let mut t = Tape::new(tape);
+        let case = gen_bundle_case(&mut t);
+        for (_, text) in &case.files {
+            if avoid_brackets && crate::props::c03::has_adjacent_closing_brackets(text) {
+                return CaseResult::Discard("avoided: known finding adjacent-closing-brackets");
+            }
+            if avoid_ellipsis && crate::props::c03::has_comment_next_to_type_ellipsis(text) {
+                return CaseResult::Discard("avoided: known finding pack-ellipsis-trivia");
+            }
+            if avoid_locals && has_multiline_local_name_list(text) {
+                return CaseResult::Discard("avoided: known finding local-multiline-name-list");
+            }
+            if avoid_gap && has_multiline_comment_followed_by_comment(text) {
+                return CaseResult::Discard("avoided: known finding multiline-comment-gap");
+            }
+            if avoid_merge && case.config.contains("remove_spaces") && !case.config.contains("remove_comments") && crate::props::c18::has_line_comment_followed_by_comment(text) {
+                return CaseResult::Discard("avoided: known finding remove-spaces-merges-line-comments");
+            }
+            if avoid_recv && case.config.contains("remove_method_call") {
+                return CaseResult::Discard("avoided: known finding method-call-multiline-receiver");
+            }
+        }
+        st.class(&format!("bundle_modules:{}", case.files.len() - 1));
+        st.sample(|| case.to_json());
+        match check_bundle(&case) {
+            Ok(None) => CaseResult::Discard("darklua rejects the project"),
+            Ok(Some((files_with_markers, surviving))) => {
+                st.class_n("surviving_markers", surviving as u64);
+                CaseResult::Pass { nontrivial: (files_with_markers >= 2 && surviving >= 3).then(|| hash_str(&case.to_json().to_string())) }
+            }
+            Err(m) => CaseResult::Fail(Failure::new(m, case.to_json())),
+        }
+    });
+}
+
+struct BundleCase {
+    /// (path, text); the entry `src/main.lua` first
+    files: Vec<(String, String)>,
+    config: String,
+}
+
+impl BundleCase {
+    fn to_json(&self) -> Value {
+        json!({"kind": "bundle", "files": self.files, "config": self.config})
+    }
+}
+
+/// one file of a bundled project: a generated tree with markers `"@<index>L<line>"`, `require`s of
+/// later modules spliced in at top level, and (modules) a final `return` of exactly one value
+fn gen_bundle_file(t: &mut Tape, index: usize, modules: usize) -> String {
+    let (mut block, luau) = match t.weighted(&[3, 4, 3]) {
+        0 => (gen_tree(t, &SynOpts::lua51()).0, false),
+        1 => (gen_tree(t, &SynOpts::luau()).0, true),
+        _ => (gen_program(t, &GenOpts::luau()).block, true),
+    };
+    // no `return` of the generated tree at top level: a module returns exactly one value
+    if matches!(block.stmts.last(), Some(Stmt::Return(_))) {
+        block.stmts.pop();
+    }
+    add_markers(&mut block, t);
+    for m in index + 1..=modules {
+        if t.bool(if index == 0 { 200 } else { 90 }) {
+            let call = Expr::Call {
+                f: Box::new(Expr::Name("require".into())),
+                args: vec![Expr::Str { raw: String::new(), value: format!("./m{}", m).into_bytes() }],
+                sugar: CallSugar::Parens,
+            };
+            let stmt = match t.choose(3) {
+                0 => Stmt::Local { is_const: false, names: vec![Binding::new(format!("req{}", m))], values: vec![call] },
+                1 => Stmt::Call(Expr::Call { f: Box::new(Expr::Name("mark".into())), args: vec![call, marker()], sugar: CallSugar::Parens }),
+                _ => Stmt::Local { is_const: false, names: vec![Binding::new(format!("req{}", m))], values: vec![Expr::Table(vec![TableItem::Pos(marker()), TableItem::Pos(call)])] },
+            };
+            let pos = t.choose(block.stmts.len() + 1);
+            block.stmts.insert(pos, stmt);
+        }
+    }
+    if index > 0 {
+        block.stmts.push(Stmt::Return(vec![Expr::Table(vec![TableItem::Pos(marker())])]));
+    }
+    let mut lo = LayoutOpts::all(luau);
+    lo.respell_literals = false;
+    lo.trailing_newline = t.bool(200);
+    let text = luaprint::print_layout(&block, t, &lo);
+    text.replace("\"@L", &format!("\"@{}L", index))
+}
+
+fn gen_bundle_case(t: &mut Tape) -> BundleCase {
+    let modules = 1 + t.choose(3);
+    let mut files = vec![];
+    for i in 0..=modules {
+        let path = if i == 0 { "src/main.lua".to_string() } else { format!("src/m{}.lua", i) };
+        files.push((path, gen_bundle_file(t, i, modules)));
+    }
+    let config = loop {
+        let (c, shift) = gen_config(t);
+        if matches!(shift, Shift::None) {
+            break c;
+        }
+    };
+    let config = config.replacen('{', "{ bundle: { require_mode: \"path\" },", 1);
+    BundleCase { files, config }
+}
+
+/// (file index, line the marker claims, line it is on)
+fn tagged_markers_of(text: &str) -> Result<Vec<(usize, u32, u32)>, String> {
+    let l = lex(text, Mode::Luau).map_err(|e| format!("{} (line {})", e.msg, e.line))?;
+    let mut out = vec![];
+    for t in &l.tokens {
+        if t.kind == TokKind::Str && t.text.starts_with("\"@") && t.text.ends_with('"') {
+            let body = &t.text[2..t.text.len() - 1];
+            if let Some((i, n)) = body.split_once('L') {
+                if let (Ok(i), Ok(n)) = (i.parse::<usize>(), n.parse::<u32>()) {
+                    out.push((i, n, t.line));
+                }
+            }
+        }
+    }
+    Ok(out)
+}
+
+/// Ok(Some((files with surviving markers, surviving markers)))
+fn check_bundle(case: &BundleCase) -> Result<Option<(usize, usize)>, String> {
+    for (i, (path, text)) in case.files.iter().enumerate() {
+        for (fi, n, line) in tagged_markers_of(text).map_err(|e| format!("harness: {} does not lex: {}", path, e))? {
+            if fi != i || n != line {
+                return Err(format!("harness: printer wrote marker @{}L{} on line {} of {}", fi, n, line, path));
+            }
+        }
+        if crate::luasyn::parse::parse_with_options(text, Mode::Luau, crate::luasyn::parse::ParseOptions { check_loop_context: false, check_vararg_context: false }).is_err() {
+            return Ok(None);
+        }
+    }
+    let config = dl::parse_config(&case.config).map_err(|e| format!("harness: configuration rejected: {}", e))?;
+    let (resources, errs) = match dl::process_project(&case.files, "src/main.lua", "out/main.lua", config) {
+        Ok(r) => r,
+        Err(dl::DlError::Process(_)) => return Ok(None),
+        Err(e) => return Err(format!("{}", e)),
+    };
+    if !errs.is_empty() {
+        return Ok(None);
+    }
+    let out = resources.get("out/main.lua").map_err(|_| "no bundle written and no error reported".to_string())?;
+    let markers = tagged_markers_of(&out).map_err(|e| format!("the bundle does not lex: {}\n--- output\n{}", e, out))?;
+    // a rule may duplicate an expression (remove_compound_assignment repeats a simple prefix / key):
+    // one of the copies is the original. Per file, one amount must fit at least one occurrence
+    // of every surviving marker.
+    let mut deltas: std::collections::BTreeMap<usize, std::collections::BTreeMap<u32, Vec<i64>>> = Default::default();
+    for (fi, n, line) in &markers {
+        deltas.entry(*fi).or_default().entry(*n).or_default().push(*line as i64 - *n as i64);
+    }
+    for (fi, per_marker) in &deltas {
+        let mut candidates: Option<Vec<i64>> = None;
+        for ds in per_marker.values() {
+            candidates = Some(match candidates {
+                None => ds.clone(),
+                Some(c) => c.into_iter().filter(|d| ds.contains(d)).collect(),
+            });
+        }
+        if candidates.map(|c| c.is_empty()).unwrap_or(false) {
+            let mut msg = format!(
+                "in the bundle, the code of {} does not move by one amount: (marker line -> lines moved) {:?}\n--- config\n{}",
+                case.files[*fi].0,
+                per_marker.iter().map(|(n, ds)| format!("@{}L{} -> {:?}", fi, n, ds)).collect::<Vec<_>>(),
+                case.config
+            );
+            for (p, text) in &case.files {
+                msg.push_str(&format!("\n--- {}\n{}", p, text));
+            }
+            msg.push_str(&format!("\n--- bundle\n{}", out));
+            return Err(msg);
+        }
+    }
+    Ok(Some((deltas.len(), markers.len())))
 }
 
 fn replay(v: &Value) -> Result<(), String> {
+    if v.get("kind").and_then(|k| k.as_str()) == Some("bundle") {
+        let files: Vec<(String, String)> = serde_json::from_value(v.get("files").cloned().ok_or("malformed C04 replay")?).map_err(|e| e.to_string())?;
+        let config = v.get("config").and_then(|s| s.as_str()).ok_or("malformed C04 replay")?.to_string();
+        return check_bundle(&BundleCase { files, config }).map(|_| ());
+    }
     let source = v.get("source").and_then(|s| s.as_str()).ok_or("malformed C04 replay")?;
     let config = v.get("config").and_then(|s| s.as_str()).ok_or("malformed C04 replay")?;
     let shift = match v.get("append_lines").and_then(|b| b.as_u64()).unwrap_or(0) {
